@@ -157,7 +157,10 @@ def pedal_find(feature, R):
     if kind in ("call", "method"):
         return len(find_function_calls(name, report=R))
     if kind == "ast":
-        return len(parse_program(report=R).find_all(name))
+        from pedal.cait.cait_api import find_asts
+        n = len(parse_program(report=R).find_all(name))
+        m = len(find_asts(name, report=R))
+        return n if n == m else -1000 - m          # the two documented routes must agree
     return None
 
 
@@ -275,6 +278,8 @@ def session_program(prog):
     body = []
     k = 0
     for f in sorted(prog):
+        if f == "foreign":
+            continue
         for _ in range(prog[f]):
             kind, text = occurrence(f, k)
             body.append("r%d = %s" % (k, text) if kind == "expr" else text)
@@ -310,6 +315,19 @@ def session_replay_chunk(cases, extra):
         contextualize_report(src)
         for pos, step in enumerate(rec["hist"]):
             f = step["f"]
+            if f == "foreign":
+                # a query on another, unparsable text handed in explicitly: answers nothing, touches nothing
+                from pedal.cait.cait_api import find_asts
+                try:
+                    got = len(find_asts("For", student_code="for (", report=R))
+                except Exception as e:
+                    out.append({"case": rec, "source": src, "kind": "raised", "step": pos, "f": f, "detail": "%s: %s" % (type(e).__name__, e)})
+                    break
+                if got != 0:
+                    out.append({"case": rec, "source": src, "kind": "session", "step": pos, "f": f, "found": got, "pinned": None,
+                                "expected": 0, "earlier": [s["f"] for s in rec["hist"][:pos]]})
+                    break
+                continue
             truth = len(oracle(tree, f))
             if truth != rec["prog"][f] or step["ans"] != truth:
                 out.append({"case": rec, "source": src, "kind": "environment", "detail": "oracle %d, program model %d, spec answer %d for %s" % (truth, rec["prog"][f], step["ans"], f)})
